@@ -187,6 +187,7 @@ type Disagreement struct {
 	Model         interface{} `json:"model,omitempty"`
 	Detail        string      `json:"detail,omitempty"`
 	PropertyFails bool        `json:"property_fails"` // property oracle evaluated on the implementation fails
+	Prop          string      `json:"prop,omitempty"`  // property the oracle belongs to ("" = the run's property)
 	Finding       string      `json:"finding,omitempty"` // id of a matching known finding, if any
 	Index         uint64      `json:"index"`
 }
